@@ -47,6 +47,11 @@ int main(int argc, char **argv) {
     IntReader r; r.v = vh_ints(line.substr(3));
     if (sigsetjmp(vh_jmp, 1)) { printf("%s\n", vh_signame()); fflush(stdout); continue; }
     try {
+      if (line[0] == 'O') {   // OT pol orient : the three tables of parameters.cpp
+        int p = r.nx(), o = r.nx();
+        printf("%d %d %d\n", (int)cellOrientationInRow(kPol[p], (CellOrientation)o), (int)oppositeRowOrientation((CellOrientation)o), (int)isTurn((CellOrientation)o));
+        continue;
+      }
       TCircuit t = readRowsCells(r);
       int custom = r.nx(), ow = r.nx(), oy = r.nx(), oh = r.nx(), effort = r.nx(), twice = r.nx();
       Circuit c = buildCircuit(t);
